@@ -744,13 +744,26 @@ pub fn body(case: &Case, out: &Shared) {
                     if closed_before {
                         continue;
                     }
+                    // Did this destroy call itself get a lock, and was the NAME `LOCK` unlinked (by an
+                    // earlier destroy_database, after releasing its own lock) between the owner's
+                    // grant and this one? Then the two hold locks on two different inodes: that is
+                    // the known finding (unlink after unlock), seen through a second destroy call
+                    // instead of a second open - it carries the known finding's qualifier. Without
+                    // such an unlink the destroy call removed files while somebody else validly held
+                    // the one lock file, which stands on its own.
+                    let own_grant = grants.iter().find(|(s, t)| *t == *dt && *s > *d0 && *s < *m).map(|(s, _)| *s);
+                    let unlinked_between = own_grant.map(|dg| muts.iter().any(|(s, _, w2)| *w2 == "remove_lock_file" && *s > *gs && *s < dg)).unwrap_or(false);
+                    let detail = if unlinked_between { format!("{}|lock-name-unlinked-after-the-owners-grant|destroy-overlapped-open", what) } else { what.to_string() };
+                    if unlinked_between {
+                        with_out(out, |o| o.stats.probe("destroy_locked_a_fresh_lock_file_after_an_unlink"));
+                    }
                     push_finding(
                         out,
                         Finding::new(
                             &["C17"],
                             "destroy-acted-on-open-database",
-                            what,
-                            format!("destroy_database called by task {} (events {}..{}) performed {} at event {} although task {} had been granted the file lock at event {} inside a DB::open that succeeded and whose handle was still open: destroy does not hold the lock while it removes the database files", dt, d0, d1, what, m, u, gs),
+                            &detail,
+                            format!("destroy_database called by task {} (events {}..{}) performed {} at event {} although task {} had been granted the file lock at event {} inside a DB::open that succeeded and whose handle was still open{}", dt, d0, d1, what, m, u, gs, if unlinked_between { ": the name LOCK was unlinked in between (by another destroy_database call, after it had released its lock), so the two calls hold locks on two different inodes" } else { ": destroy does not hold the lock while it removes the database files" }),
                             None,
                         ),
                     );
